@@ -727,6 +727,15 @@ func C03(c *core.Ctx, replay string) {
 		"backend posix (xattr metadata) with versioning directory; the object-ACL, CORS, restore and select routes answer NotImplemented when allowed",
 	}
 	t0 := time.Now()
+	if replay != "" {
+		var rc struct {
+			Part string `json:"part"`
+		}
+		if core.LoadReplayCase(replay, &rc) == nil && rc.Part == "policy-swap" {
+			c03PolicySwap(c)
+			return
+		}
+	}
 
 	// exhaustive lemma check of the decision over the whole bounded space, in parallel
 	type mcOut struct {
